@@ -4,6 +4,7 @@ package main
 // closures, function values (callback contracts), defer/recover, go statements.
 
 import (
+	"go/token"
 	"fmt"
 	"go/constant"
 	"go/types"
@@ -304,8 +305,18 @@ func (bs *blockState) nextMap(x *ssa.Next) {
 	e.def(eq(nn, ite(ok, add(n, "1"), n)))
 	bs.st.m[k], bs.st.m[k+":n"] = ns, nn
 	out := Val{T: x.Type(), C: []string{ok}}
-	out.C = append(out.C, key.C...)
-	out.C = append(out.C, v.C...)
+	// an unused key or value has the invalid type in the result tuple (one dummy component)
+	tup := x.Type().(*types.Tuple)
+	if len(flatten(tup.At(1).Type())) == len(key.C) {
+		out.C = append(out.C, key.C...)
+	} else {
+		out.C = append(out.C, "0")
+	}
+	if len(flatten(tup.At(2).Type())) == len(v.C) {
+		out.C = append(out.C, v.C...)
+	} else {
+		out.C = append(out.C, "0")
+	}
 	e.regs[x] = out
 }
 
@@ -443,7 +454,7 @@ func (bs *blockState) applyClosure(mc *ssa.MakeClosure, args []Val, ins ssa.Inst
 	for i, fv := range fn.FreeVars {
 		b := mc.Bindings[i]
 		lv := bs.lval(b)
-		extra[fv.Name()] = lvalueOrVal{lv: &lv}
+		extra[fv.Name()] = lvalueOrVal{lv: &lv, writes: closureWrites(fn, fv)}
 	}
 	if recovered != nil {
 		extra["recovered"] = lvalueOrVal{v: recovered}
@@ -452,8 +463,9 @@ func (bs *blockState) applyClosure(mc *ssa.MakeClosure, args []Val, ins ssa.Inst
 }
 
 type lvalueOrVal struct {
-	lv *lvalue
-	v  *Val
+	lv     *lvalue
+	v      *Val
+	writes bool
 }
 
 // ---------- invoke (interface method calls) ----------
@@ -662,7 +674,81 @@ func (bs *blockState) goInstr(x *ssa.Go) {
 	unsupp("go statement with dynamic callee")
 }
 
-func (bs *blockState) recv(x *ssa.UnOp) { unsupp("channel receive") }
+// Channel operations (DESIGN 3.6). A channel is a reference. A receive, send or select is a point
+// where the goroutine may block and other goroutines run; what it returns is arbitrary unless a
+// contract says more: `callsite recv#k <key>` / `callsite send#k <key>` in the function's contract,
+// or the global contracts builtin.recv / builtin.send when declared.
+func (bs *blockState) recv(x *ssa.UnOp) {
+	bs.e.regs[x] = bs.chanOp("recv", []Val{bs.val(x.X)}, x, x.Type())
+}
+
+// chanOrd numbers the receive / send operations of the function in block order (1-based).
+func (e *Enc) chanOrd(op string, ins ssa.Instruction) int {
+	n := 0
+	for _, b := range e.fn.Blocks {
+		for _, i := range b.Instrs {
+			switch x := i.(type) {
+			case *ssa.UnOp:
+				if x.Op == token.ARROW && op == "recv" {
+					n++
+				}
+			case *ssa.Send:
+				if op == "send" {
+					n++
+				}
+			}
+			if i == ins {
+				return n
+			}
+		}
+	}
+	return 0
+}
+
+func (e *Enc) chanSpec(op string, ins ssa.Instruction) *FuncSpec {
+	if e.spec != nil {
+		if alt, ok := e.spec.CallSites[fmt.Sprintf("%s#%d", op, e.chanOrd(op, ins))]; ok {
+			spec := e.W.Specs.Funcs[alt]
+			if spec == nil {
+				panic(contractMismatch{"callsite " + op + ": unknown contract " + alt})
+			}
+			return spec
+		}
+	}
+	return e.W.Specs.Funcs["builtin."+op]
+}
+
+func (bs *blockState) chanOp(op string, args []Val, ins ssa.Instruction, resT types.Type) Val {
+	e := bs.e
+	if spec := e.chanSpec(op, ins); spec != nil {
+		return bs.applyContractX(spec, "builtin."+op, args, ins, resT, nil)
+	}
+	if resT == nil {
+		return Val{}
+	}
+	v := e.freshVal(op, resT)
+	bs.assumeG(e.typeFacts(v))
+	bs.assumeG(e.allocatedFacts(bs.st, v))
+	return v
+}
+
+// select: the chosen case is arbitrary among the cases (or -1 for a select with default); every
+// received value is arbitrary. `ghost select k after ::` statements see arg_index.
+func (bs *blockState) selectInstr(x *ssa.Select) {
+	e := bs.e
+	e.callOrd["select"]++
+	tup := x.Type().(*types.Tuple)
+	v := e.freshVal("select", tup)
+	bs.assumeG(e.typeFacts(v))
+	bs.assumeG(e.allocatedFacts(bs.st, v))
+	lo := "0"
+	if !x.Blocking {
+		lo = "(- 1)"
+	}
+	bs.assumeG(and(app("<=", lo, v.C[0]), app("<", v.C[0], fmt.Sprint(len(x.States)))))
+	e.regs[x] = v
+	bs.ghostAt(fmt.Sprintf("select %d after", e.callOrd["select"]), x, map[string]Val{"index": {tInt, []string{v.C[0]}}})
+}
 
 // ---------- varargs arrays ----------
 
